@@ -20,6 +20,7 @@ import Shutter.Drive.Trigger
 import Shutter.Drive.Syncer
 import Shutter.Drive.Dkg
 import Shutter.Drive.Crash
+import Shutter.Drive.AccessNode
 
 open Shutter
 
@@ -36,6 +37,7 @@ def dispatch (st : DState) (line : String) : DState × String :=
   | "ST" :: rest => (st, Drive.ServiceTrigger.step rest)
   | "VAL" :: rest => (st, Drive.Validate.step rest)
   | "NET" :: rest => (st, Drive.Net.step rest)
+  | "AN" :: rest => (st, Drive.AccessNode.step rest)
   | "TRG" :: rest => (st, Drive.Trigger.step rest)
   | "SYN" :: rest => (st, Drive.Syncer.step rest)
   | "DKG" :: rest => (st, Drive.Dkg.step rest)
